@@ -199,7 +199,9 @@ def notify_follows(f, write_pos, cvfield, pred_fields, cls, require_all=True, la
     protected = set()
     for t in [s_ for s_ in f.stmts.values() if s_["k"] == "CXXTryStmt"]:
         hs = [f.s(h) for h in t["handlers"]]
-        if any(h.get("all") for h in hs) and not any(d["k"] == "CXXThrowExpr" for h in hs for d in f.descendants(h)):
+        swallows = any(h.get("all") for h in hs) and not any(d["k"] == "CXXThrowExpr" for h in hs for d in f.descendants(h))
+        notifies = any(h.get("all") and any(d["id"] == n["id"] for n in ns for d in f.descendants(h)) for h in hs)
+        if swallows or notifies:        # the handler keeps the exception in, or wakes the waiters itself before rethrowing
             protected |= {d["id"] for d in f.descendants(f.s(t["try"]))}
     for u in f.stmts.values():
         if u["id"] in protected or u["k"] not in CALLS or not is_user_call(f, u):
